@@ -42,6 +42,7 @@ type evidence struct {
 	histories2     int
 	rawFindings    int
 	consequences   int
+	syncedWrites   int
 	twinLogDiffs   int
 	known          int
 	violations     int
@@ -133,6 +134,10 @@ func (e *evidence) add(rec *record) {
 	if st.PoolDrops > 0 {
 		e.faults["pooldrop"]++
 	}
+	if st.SyncPoints > 0 {
+		e.faults["syncpoint-runs"]++
+	}
+	e.syncedWrites += st.SyncedGlobalWrites
 	failops, scribbles, handoff := 0, 0, false
 	perBackend := map[int]int{}
 	lastFailed := map[int]bool{}
@@ -331,8 +336,9 @@ func (e *evidence) write(path string) error {
 		"corpus_sources":                       len(d.corpus.progs),
 		"raw_findings":                         e.rawFindings,
 		"known_findings_matched":               e.known,
-		"mismatches_attributed_to_a_reported_or_known_module_alteration": e.consequences,
-		"twin_runs_with_identical_results_but_different_event_log":       e.twinLogDiffs,
+		"package_state_writes_in_packages_with_sync_primitives_not_judged": e.syncedWrites,
+		"mismatches_attributed_to_a_reported_or_known_module_alteration":   e.consequences,
+		"twin_runs_with_identical_results_but_different_event_log":         e.twinLogDiffs,
 		"instrumentation": map[string]any{"yield_sites": d.sites.YieldSites, "map_sites": d.sites.MapSites, "package_level_variables_monitored": d.sites.Globals,
 			"sync_seams_redirected": d.sites.SyncSeams, "seam_audit_unowned_constructs": audit, "mode": mode, "packages": d.sites.Packages},
 		"components": map[string]any{
